@@ -2832,7 +2832,9 @@ class Parameters:
         self_._state_watchers = []
         param_values = self_.values()
         params = {name: param_values[name] for name in param_names}
-        self_._TRIGGER = True
+        # (the names being triggered: assignments made to other parameters by
+        # the callbacks that run meanwhile are ordinary assignments)
+        self_._TRIGGER = set(params) | set(triggers)
         try:
             self_.update(dict(params, **triggers))
         finally:
@@ -2845,6 +2847,11 @@ class Parameters:
                 w for w in self_._state_watchers
                 if not any(w is pending for pending in watchers)
             ]
+
+    def _is_triggered(self_, event):
+        """Whether the event was produced by trigger() rather than by an assignment."""
+        triggering = self_._TRIGGER
+        return triggering is True or (bool(triggering) and event.name in triggering)
 
     def _update_event_type(self_, watcher, event, triggered):
         """Return an updated Event object with the type field set appropriately."""
@@ -2877,7 +2884,8 @@ class Parameters:
 
     def _call_watcher(self_, watcher, event):
         """Invoke the given watcher appropriately given an Event object."""
-        if self_._TRIGGER:
+        triggered = self_._is_triggered(event)
+        if triggered:
             pass
         elif watcher.onlychanged and (not self_._changed(event)):
             return
@@ -2887,7 +2895,7 @@ class Parameters:
             if not any(watcher is w for w in self_._state_watchers):
                 self_._state_watchers.append(watcher)
         else:
-            event = self_._update_event_type(watcher, event, self_._TRIGGER)
+            event = self_._update_event_type(watcher, event, triggered)
             with _batch_call_watchers(self_.self_or_cls, enable=watcher.queued, run=False):
                 self_._execute_watcher(watcher, (event,))
 
@@ -2906,7 +2914,7 @@ class Parameters:
             try:
                 for watcher in sorted(watchers, key=lambda w: w.precedence):
                     events = [self_._update_event_type(watcher, event_dict[(name, watcher.what)],
-                                                       self_._TRIGGER)
+                                                       self_._is_triggered(event_dict[(name, watcher.what)]))
                               for name in watcher.parameter_names
                               if (name, watcher.what) in event_dict]
                     with _batch_call_watchers(self_.self_or_cls, enable=watcher.queued, run=False):
